@@ -1,6 +1,15 @@
 /-
   Property C16 — property theorems only (helper lemmas live next to the model).
-  Stub: nothing claimed yet.
 -/
+import Babylon.ExecQ.Model
+
 namespace Babylon.Properties.C16
+open Babylon.ExecQ Babylon.Gen.ExecQ Babylon.Core
+
+theorem gen_skel_execute : skel_execute_move = Skel.execute ∧ skel_execute_copy = Skel.execute := by decide
+theorem gen_skel_signal_push_event : skel_signal_push_event = Skel.signal_push_event := by decide
+theorem gen_skel_start_consumer : skel_start_consumer = Skel.start_consumer := by decide
+theorem gen_skel_consume_until_empty : skel_consume_until_empty = Skel.consume_until_empty := by decide
+theorem gen_skel_join : skel_join = Skel.join := by decide
+
 end Babylon.Properties.C16
